@@ -50,6 +50,8 @@ const preludeAbs = `(set-option :produce-models true)
 (define-fun fgt ((x F64) (y F64)) Bool (flt y x))
 (define-fun fge ((x F64) (y F64)) Bool (fle y x))
 (assert (forall ((x F64)) (! (=> (not (fisnan x)) (feq x x)) :pattern ((feq x x)))))
+(assert (forall ((x F64)) (! (not (flt x x)) :pattern ((flt x x)))))
+(assert (forall ((x F64) (y F64) (z F64)) (! (=> (and (flt x y) (flt y z)) (flt x z)) :pattern ((flt x y) (flt y z)))))
 (assert (forall ((x F64) (y F64)) (! (= (feq x y) (feq y x)) :pattern ((feq x y)))))
 `
 
